@@ -2,7 +2,9 @@ package rules
 
 import (
 	"fmt"
+	"go/constant"
 	"go/types"
+	"sort"
 	"strings"
 
 	"golang.org/x/tools/go/ssa"
@@ -554,8 +556,9 @@ func r17pcoAddX(c *core.Ctx, R string) {
 	for _, t := range []struct {
 		name string
 		n    int
-	}{{"AddDNSServerIPv4AddressRequest", 0}, {"AddDNSServerIPv6AddressRequest", 0}, {"AddIPAddressAllocationViaNASSignallingUL", 0},
-		{"AddDNSServerIPv4Address", 4}, {"AddDNSServerIPv6Address", 16}, {"AddIPv4LinkMTU", 2}} {
+		id   uint64 // TS 24.008 table 10.5.154: container identifier of this option in its direction
+	}{{"AddDNSServerIPv4AddressRequest", 0, 0x000d}, {"AddDNSServerIPv6AddressRequest", 0, 0x0003}, {"AddIPAddressAllocationViaNASSignallingUL", 0, 0x000a},
+		{"AddDNSServerIPv4Address", 4, 0x000d}, {"AddDNSServerIPv6Address", 16, 0x0003}, {"AddIPv4LinkMTU", 2, 0x0010}} {
 		f := c.P.Func(pNasC, "ProtocolConfigurationOptions."+t.name)
 		if f == nil {
 			continue
@@ -573,6 +576,7 @@ func r17pcoAddX(c *core.Ctx, R string) {
 		ok := true
 		detail := ""
 		nOK := 0
+		okID, gotID := true, ""
 		for _, o := range outs {
 			if o.Panicked {
 				continue
@@ -595,6 +599,12 @@ func r17pcoAddX(c *core.Ctx, R string) {
 				n = cont.Len
 			}
 			nOK++
+			if id, isID := o.Mem.Load(u.Path+".ProtocolOrContainerID", types.Typ[types.Uint16]).ConstVal(); !isID || id != t.id {
+				okID, gotID = false, fmt.Sprintf("%#04x", id)
+				if !isID {
+					gotID = "not a constant"
+				}
+			}
 			if !isK || int(ln) != n || n != t.n {
 				ok = false
 				detail = fmt.Sprintf("LengthOfContents=%d, %d octets appended", ln, n)
@@ -605,5 +615,61 @@ func r17pcoAddX(c *core.Ctx, R string) {
 			continue
 		}
 		c.Check(ok, R, "nasConvert.PCO."+t.name+":length", f.Pos(), fmt.Sprintf("LengthOfContents = %d = octets appended", t.n), "%s must set LengthOfContents to the %d content octets of its container kind (%s)", t.name, t.n, detail)
+		c.Check(okID, R, "nasConvert.PCO."+t.name+":id", f.Pos(), fmt.Sprintf("container identifier %#04x (TS 24.008 table 10.5.154)", t.id), "%s must label its container %#04x (TS 24.008 table 10.5.154); it stores %s", t.name, t.id, gotID)
 	}
+}
+
+// T-24008-PCO: protocol / container identifiers of TS 24.008 table 10.5.154 (10.5.6.3), by the
+// name nasMessage gives them (UL: MS to network, DL: network to MS).
+var pcoIDs = map[string]int64{
+	"PCSCFIPv6AddressRequestUL": 0x0001, "IMCNSubsystemSignalingFlagUL": 0x0002, "DNSServerIPv6AddressRequestUL": 0x0003, "NotSupportedUL": 0x0004,
+	"MSSupportOfNetworkRequestedBearerControlIndicatorUL": 0x0005, "DSMIPv6HomeAgentAddressRequestUL": 0x0007, "DSMIPv6HomeNetworkPrefixRequestUL": 0x0008,
+	"DSMIPv6IPv4HomeAgentAddressRequestUL": 0x0009, "IPAddressAllocationViaNASSignallingUL": 0x000a, "IPv4AddressAllocationViaDHCPv4UL": 0x000b,
+	"PCSCFIPv4AddressRequestUL": 0x000c, "DNSServerIPv4AddressRequestUL": 0x000d, "MSISDNRequestUL": 0x000e, "IFOMSupportRequestUL": 0x000f,
+	"IPv4LinkMTURequestUL": 0x0010, "MSSupportOfLocalAddressInTFTIndicatorUL": 0x0011, "PCSCFReSelectionSupportUL": 0x0012, "NBIFOMRequestIndicatorUL": 0x0013,
+	"NBIFOMModeUL": 0x0014, "NonIPLinkMTURequestUL": 0x0015, "APNRateControlSupportIndicatorUL": 0x0016, "UEStatus3GPPPSDataOffUL": 0x0017,
+	"ReliableDataServiceRequestIndicatorUL": 0x0018, "AdditionalAPNRateControlForExceptionDataSupportIndicatorUL": 0x0019, "PDUSessionIDUL": 0x001a,
+	"EthernetFramePayloadMTURequestUL": 0x0020, "UnstructuredLinkMTURequestUL": 0x0021, "I5GSMCauseValueUL": 0x0022,
+	"QoSRulesWithTheLengthOfTwoOctetsSupportIndicatorUL": 0x0023, "QoSFlowDescriptionsWithTheLengthOfTwoOctetsSupportIndicatorUL": 0x0024,
+	"LinkControlProtocolUL": 0xc021, "PushAccessControlProtocolUL": 0xc023, "ChallengeHandshakeAuthenticationProtocolUL": 0xc223, "InternetProtocolControlProtocolUL": 0x8021,
+	"PCSCFIPv6AddressDL": 0x0001, "IMCNSubsystemSignalingFlagDL": 0x0002, "DNSServerIPv6AddressDL": 0x0003, "PolicyControlRejectionCodeDL": 0x0004,
+	"SelectedBearerControlModeDL": 0x0005, "DSMIPv6HomeAgentAddressDL": 0x0007, "DSMIPv6HomeNetworkPrefixDL": 0x0008, "DSMIPv6IPv4HomeAgentAddressDL": 0x0009,
+	"PCSCFIPv4AddressDL": 0x000c, "DNSServerIPv4AddressDL": 0x000d, "MSISDNDL": 0x000e, "IFOMSupportDL": 0x000f, "IPv4LinkMTUDL": 0x0010,
+	"NetworkSupportOfLocaladdressInTFTIndicatorDL": 0x0011, "NBIFOMAcceptedIndicatorDL": 0x0013, "NBIFOMModeDL": 0x0014, "NonIPLinkMTUDL": 0x0015,
+	"APNRateControlParametersDL": 0x0016, "Indication3GPPPSDataOffSupportDL": 0x0017, "ReliableDataServiceAcceptedIndicatorDL": 0x0018,
+	"AdditionalAPNRateControlForExceptionDataParametersDL": 0x0019, "SNSSAIDL": 0x001b, "QoSRulesDL": 0x001c, "SessionAMBRDL": 0x001d,
+	"PDUSessionAddressLifetimeDL": 0x001e, "QoSFlowDescriptions": 0x001f, "EthernetFramePayloadMTU": 0x0020, "UnstructuredLinkMTU": 0x0021,
+	"QoSRulesWithTheLengthOfTwoOctets": 0x0023, "QoSFlowDescriptionsWithTheLengthOfTwoOctets": 0x0024,
+}
+
+// r17pcoid: every identifier constant has its table value (a constant that was renamed or
+// removed is not an error of this rule: whoever used it no longer compiles).
+func r17pcoid(c *core.Ctx) {
+	const R = "R17.pcoid"
+	c.Rule(R, "the PCO protocol/container identifier constants of nasMessage have the values of TS 24.008 table 10.5.154")
+	var pkg *types.Package
+	if pp := c.P.Pkg(pNasM); pp != nil {
+		pkg = pp.Types
+	}
+	if pkg == nil {
+		c.SoftUndecided("%s: package %s not loaded", R, pNasM)
+		return
+	}
+	var names []string
+	for n := range pcoIDs {
+		names = append(names, n)
+	}
+	sort.Strings(names)
+	n := 0
+	for _, name := range names {
+		k, ok := pkg.Scope().Lookup(name).(*types.Const)
+		if !ok {
+			continue
+		}
+		v, exact := constant.Int64Val(k.Val())
+		n++
+		c.Check(exact && v == pcoIDs[name], R, "nasMessage."+name, k.Pos(), fmt.Sprintf("%#04x", pcoIDs[name]), "nasMessage.%s is %#04x, TS 24.008 table 10.5.154 assigns %#04x to this option: the peer reads a different option (or none)", name, v, pcoIDs[name])
+	}
+	c.Sites(n)
+	c.Floor(R, n, len(pcoIDs))
 }
